@@ -200,6 +200,22 @@ func runEnumCase(c enumCase) *core.Failure {
 		}
 		data = nd
 	}
+	// right after this column was built, a column declared over OTHER values must still reject this column's
+	// values (whatever construction keeps in tables, pools or caches must not make a value look declared)
+	for _, d := range data {
+		if d == nilMark {
+			continue
+		}
+		probe := qframe.New(map[string]interface{}{"e": []string{d}}, newqf.Enums(map[string][]string{"e": {"~declared~", "~only~"}}))
+		if probe.Err == nil {
+			return core.Failf("%s: a column built next, declared over [~declared~ ~only~], accepted the value %q of this column", what, d)
+		}
+		probe2 := qframe.ReadCSV(strings.NewReader("e\n"+"~only~\n"), csv.Types(map[string]string{"e": "enum"}), csv.EnumValues(map[string][]string{"e": {"~only~"}}))
+		if probe2.Err != nil {
+			return core.Failf("%s: a CSV enum column read next failed: %v", what, probe2.Err)
+		}
+		break
+	}
 	// the column reproduces the data: never another string, never nil for a value, null stays null
 	want := model.Col{Name: "e", Kind: model.Enum, EnumVals: declared}
 	for _, d := range data {
@@ -215,9 +231,26 @@ func runEnumCase(c enumCase) *core.Failure {
 		return core.Failf("%s: column differs from the data: %s\n got %s", what, d, got)
 	}
 	in := wf
+	// the same column with all its rows in reverse order (a full-length index that is not the identity)
+	revIx := make([]int, in.N)
+	for i := range revIx {
+		revIx[i] = in.N - 1 - i
+	}
+	inRev := in.Rows(revIx)
+	qRev := q.WithRowNums("~rn").Sort(qframe.Order{Column: "~rn", Reverse: true}).Select("e")
+	if d := model.Diff(inRev, model.Observe(qRev)); d != "" && len(q.ColumnNames()) == 1 {
+		return core.Failf("%s: the reversed frame does not show the reversed rows: %s", what, d)
+	}
 	check := func(l model.Leaf) *core.Failure {
 		res := model.Observe(q.Filter(model.BuildClause(model.LeafC(l), in.Kinds())))
 		rows, err := model.Evaluator{F: in}.Filter(model.LeafC(l))
+		if err == nil {
+			resRev := model.Observe(qRev.Filter(model.BuildClause(model.LeafC(l), in.Kinds())))
+			rowsRev, _ := model.Evaluator{F: inRev}.Filter(model.LeafC(l))
+			if d := model.Diff(inRev.Rows(rowsRev), resRev); d != "" {
+				return core.Failf("%s: Filter %s on the frame with its rows reversed: %s\n want rows %v of %s", what, model.LeafC(l), d, rowsRev, inRev)
+			}
+		}
 		// the same leaf where no row is left to decide: on the frame without rows, and as the last
 		// member of an Or whose earlier members already select every row. Whether the clause is an
 		// error depends on the clause and the column's declaration, never on the rows.
